@@ -18,6 +18,13 @@ claim("C20", "protocol-shape rules: edge-cut reachability + value provenance on 
       "Decides the compare-and-swap protocol shape for all paths: conditional header on every PutObject/DeleteObject, acquire gated by absent/expired, token from the same read, generation+1, 412 never success, renew keeps generation. Mutual exclusion then follows from the provider's CAS; interleaving-level linearizability and clock skew are not decided. One recorded finding (F6).",
       _TB, "DESIGN.md 3/C20")
 
+claim("C02", "edge-cut reachability + value provenance + lockset dataflow on SSA (custom analyser)",
+      "Decides commit gating of the WAL copy, TXID allocation (pos+1, same value in header and file name), header provenance, publication-before-acknowledgement of the position, the bounded snapshot read and the executor/checkpoint-lock hand-off, on every path. Necessary conditions of 'every TXID is one committed state, monotone, gapless'; the content of each TXID (SQLite semantics, C04's continuity decision) is not decided.",
+      _TB, "DESIGN.md 3/C02")
+claim("C17", "edge-cut reachability on dense page loops, including obligations on the pinned ltx dependency",
+      "Decides, symbolically in the page size, that every dense page loop skips ltx.LockPgno, that the ltx encoder cannot emit the lock page and that the decoder writes a zero page there. Byte equality of other pages is not decided.",
+      _TB, "DESIGN.md 3/C17")
+
 _pending = "check not built yet in this revision (planned, see DESIGN.md section 3); not claimed until its rules run clean on the unchanged tree"
-for _p in ["C01","C02","C03","C04","C05","C06","C10","C11","C12","C13","C14","C16","C17","C18","C19"]:
+for _p in ["C01","C03","C04","C05","C06","C10","C11","C12","C13","C14","C16","C18","C19"]:
     na(_p, _pending)
